@@ -474,7 +474,9 @@ func (c *Context) rootSpecials(d, x *Decimal, factor int32) (bool, Condition, er
 	case 0:
 		d.Set(x)
 		d.Exponent /= factor
-		return true, 0, nil
+		// Clamp the zero's exponent into the context's range.
+		res, err := c.goError(c.round(d, d))
+		return true, res, err
 	}
 	return false, 0, nil
 }
